@@ -82,4 +82,51 @@ YeeE(E, H, mat, N, bk, lay, src, variant) ==
         ELSE E[i] + mat[i] * Curl(H, i, N, bk, lay, FALSE, variant) + (IF i = src THEN 1 ELSE 0) ]
 YeeH(E, H, N, bk, lay, variant) ==
     [ i \in 1..Size(N) |-> H[i] - Curl(E, i, N, bk, lay, TRUE, variant) ]
+
+\* ---------- full 3x3 tensors (9 components, row-major: k = 3*row + col; arrays of layout (9, nx, ny, nz)) ----------
+\* pi acts on BOTH indices: T2[pi(r), pi(c)] = T1[r, c].
+\* variant "tensor_diag_only": only the diagonal entries are relabelled, the off-diagonal ones keep their slot
+TIdx(r, c) == 3 * r + c
+PiT(k, variant) == IF variant = "tensor_diag_only" /\ (k \div 3) # (k % 3) THEN k ELSE TIdx(Pi(k \div 3), Pi(k % 3))
+PiInv(a) == (a + 2) % 3
+PiTInv(k, variant) == IF variant = "tensor_diag_only" /\ (k \div 3) # (k % 3) THEN k ELSE TIdx(PiInv(k \div 3), PiInv(k % 3))
+Size9(N) == 9 * Cells(N)
+PermIdx9(i, N, variant) == Lin(PiT((i - 1) \div Cells(N), variant), Coord(i, N, 3), Coord(i, N, 1), Coord(i, N, 2), PermShape(N))
+\* relabelled tensor array, written with the inverse map: entry (k', x', y', z') of the relabelled scene comes from
+\* (piT^-1(k'), y', z', x') of the original one (N2 = PermShape(N))
+PermTensor(T, N, variant) ==
+    LET N2 == PermShape(N)
+    IN  [ j \in 1..Size9(N) |-> T[Lin(PiTInv((j - 1) \div Cells(N), variant), Coord(j, N2, 2), Coord(j, N2, 3), Coord(j, N2, 1), N)] ]
+PermRel9(T2, T1, N) == \A i \in 1..Size9(N) : T2[PermIdx9(i, N, "ok")] = T1[i]
+
+\* full-tensor E update (fdtd/update.py, full anisotropic branch, lossless: A = identity):
+\*   E_r += B[r,r] * K_r + sum_{c # r} B[r,c] * avg(K_c at the location of E_r),   K = curl H,
+\* avg = avg_anisotropic_E_component(K_pad, component = c, location = r): mean of the four samples
+\*   cell, cell + e_r, cell - e_c, cell + e_r - e_c   of the boundary-padded curl.
+\* The model keeps integers: G[r,c] stands for B[r,c] (diagonal) resp. B[r,c]/4 (off-diagonal) and Sum4 is 4*avg.
+\* variant "avg_location": the average of K_z for the E_y row is taken at the location of E_x (wrong `location`)
+Nb(i, a, d, N, bk) ==      \* index one cell away along axis a (1..3) under the padding rule; 0 = zero padding
+    IF i = 0 THEN 0
+    ELSE LET q == Coord(i, N, a) + d
+         IN  IF q >= 0 /\ q < N[a] THEN i + d * Stride(N, a)
+             ELSE IF bk[a] = "wrap" THEN i - d * (N[a] - 1) * Stride(N, a) ELSE 0
+KAt(H, j, N, bk, lay, variant) == IF j = 0 THEN 0 ELSE Curl(H, j, N, bk, lay, FALSE, variant)
+Sum4(H, i, c, N, bk, lay, variant) ==
+    LET r  == Comp(i, N)
+        lo == IF variant = "avg_location" /\ r = 1 /\ c = 2 THEN 0 ELSE r
+        j0 == At(i, c, N)
+        j1 == Nb(j0, lo + 1, 1, N, bk)
+        j2 == Nb(j0, c + 1, -1, N, bk)
+        j3 == Nb(j1, c + 1, -1, N, bk)
+    IN  KAt(H, j0, N, bk, lay, variant) + KAt(H, j1, N, bk, lay, variant)
+          + KAt(H, j2, N, bk, lay, variant) + KAt(H, j3, N, bk, lay, variant)
+GAt(G, i, c, N) == G[Lin(TIdx(Comp(i, N), c), Coord(i, N, 1), Coord(i, N, 2), Coord(i, N, 3), N)]
+YeeEFull(E, H, G, N, bk, lay, src, variant) ==
+    [ i \in 1..Size(N) |->
+        IF Zeroed(i, N, bk, variant) THEN 0
+        ELSE LET r == Comp(i, N)
+             IN  E[i] + GAt(G, i, r, N) * Curl(H, i, N, bk, lay, FALSE, variant)
+                      + GAt(G, i, (r + 1) % 3, N) * Sum4(H, i, (r + 1) % 3, N, bk, lay, variant)
+                      + GAt(G, i, (r + 2) % 3, N) * Sum4(H, i, (r + 2) % 3, N, bk, lay, variant)
+                      + (IF i = src THEN 1 ELSE 0) ]
 =============================================================================
